@@ -1,4 +1,6 @@
-\* capturer as written, authenticator that only accepts the latest replay counter: holds (quick bounds)
+\* EXPECTED TO BE REFUTED (design finding): with a supplicant that draws a new SNonce for every message 1 (IEEE 802.11-2012
+\* 11.6.6.2) even a strict authenticator yields M1, M1(re-sent), M2(SNonce 1), M2(SNonce 2), M3, M4; the capturer's "skip
+\* repeated" rule keeps the FIRST message 2, the PTK is derived from the stale SNonce and the MIC of message 4 fails.
 SPECIFICATION Spec
 CONSTANT Stations = {"s1", "s2"}
 CONSTANT R = 2
@@ -10,7 +12,7 @@ CONSTANT MaxBeacons = 1
 CONSTANT MaxQ = 2
 CONSTANT Variant = "code"
 CONSTANT Lenient = FALSE
-CONSTANT Snonce = "reuse"
+CONSTANT Snonce = "fresh"
 CONSTANT ApKnownFirst = TRUE
 CONSTANT Record = FALSE
 INVARIANTS TypeOK KeySound KeysNeedAp ImplSubAbs PeersAgree AbsHasKeys CapturerHasKeys NoMissedData
